@@ -129,6 +129,13 @@ struct Access {
     const size_t top = ~size_t(0);
     v.push_back(top / 2);      // 2^63 - 1
     v.push_back(top / 2 + 1);  // 2^63
+    // values that alias a small index when truncated to 8, 16 or 32 bits
+    for (size_t base : {(size_t)1 << 8, (size_t)1 << 16, (size_t)1 << 31,
+                        (size_t)1 << 32, (size_t)1 << 33, (size_t)1 << 48})
+      for (size_t k = 0; k <= n + 1; k++) {
+        v.push_back(base + k);
+        if (k && base > k) v.push_back(base - k);
+      }
     for (size_t k = 0; k <= n + 2; k++) v.push_back(top - k);
     // indices that wrap back into the view when start is added
     const size_t size = A.end - A.start;
@@ -222,9 +229,106 @@ struct Access {
   }
 };
 
+// Beyond the exhaustive scope: random windows on grids whose size crosses the
+// 8-bit and 16-bit boundaries (300 and 70 000 points).
+template <typename T>
+void largeCase(Ctx &c, size_t n) {
+  static std::optional<Grid<T>> big300, big70000;
+  std::optional<Grid<T>> &slotG = n == 300 ? big300 : big70000;
+  if (!slotG) {
+    std::vector<T> p;
+    for (size_t i = 0; i < n; i++) p.push_back(mk<T>((long)i - 1000, 4));
+    slotG.emplace(std::move(p));
+  }
+  const Grid<T> &grid = *slotG;
+  Rng g = c.rng();
+  auto rndWin = [&]() {
+    if (g.chance(1, 6)) return Win{0, 0};
+    // windows hugging the 255/256 and 65535/65536 boundaries half of the time
+    size_t s, e;
+    if (g.chance(1, 2)) {
+      const size_t b = (n > 65536 && g.chance(1, 2)) ? 65536 : 256;
+      s = b - (size_t)g.range(0, 3) - (g.chance(1, 2) ? 0 : (size_t)g.range(0, 40));
+      e = b + (size_t)g.range(-1, 3) + (g.chance(1, 2) ? 0 : (size_t)g.range(0, 40));
+      if (e <= s) e = s + 1;
+      if (e > n) e = n;
+    } else {
+      s = g.below(n);
+      e = (size_t)g.range((int64_t)s + 1, (int64_t)n);
+    }
+    return Win{s, e};
+  };
+  for (int it = 0; it < 40; it++) {
+    const Win A = rndWin(), B = rndWin(), C = rndWin();
+    const Support<T> sa(grid, A.start, A.end), sb(grid, B.start, B.end),
+        sc(grid, C.start, C.end);
+    const std::string d = "grid of " + std::to_string(n) + " points, windows " +
+                          winStr(A) + " " + winStr(B) + " " + winStr(C);
+    const Support<T> u = sa.calcUnion(sb), in = sa.calcIntersection(sb);
+    if (!sameWin(winOfS(u), hull(A, B)) || !sameWin(winOfS(sb.calcUnion(sa)), hull(A, B)))
+      c.violation("C13", "large-grid/union", d + " got " + winStr(winOfS(u)));
+    if (!sameWin(winOfS(in), meet(A, B)) ||
+        !sameWin(winOfS(sb.calcIntersection(sa)), meet(A, B)))
+      c.violation("C13", "large-grid/intersection", d + " got " + winStr(winOfS(in)));
+    if (!sameWin(winOfS(u.calcUnion(sc)), hull(hull(A, B), C)) ||
+        !sameWin(winOfS(in.calcIntersection(sc)), meet(meet(A, B), C)))
+      c.violation("C13", "large-grid/associativity", d);
+    if ((sa == sb) != sameWin(A, B) || (sa != sb) == sameWin(A, B))
+      c.violation("C13", "large-grid/equality", d);
+    const size_t size = A.end - A.start;
+    size_t iter = 0;
+    for (auto itp = sa.begin(); itp != sa.end(); ++itp) iter++;
+    if (sa.size() != size || iter != size ||
+        sa.numberOfIntervals() != (size >= 2 ? size - 1 : 0) ||
+        sa.containsIntervals() != (size > 1) || sa.empty() != (size == 0))
+      c.violation("C13", "large-grid/size-iteration", d);
+    // index conversions around the window edges and around 256 / 65536
+    std::vector<size_t> probe{0, 1, 254, 255, 256, 257, 65534, 65535, 65536, 65537,
+                              n - 1, n, n + 1, ~size_t(0), ((size_t)1 << 32) + A.start};
+    for (size_t e : {A.start, A.end})
+      for (int k = -2; k <= 2; k++)
+        if ((long)e + k >= 0) probe.push_back(e + (size_t)k);
+    for (size_t i : probe) {
+      const bool inPts = i >= A.start && i < A.end;
+      const auto rp = sa.relativeFromAbsolute(i);
+      const bool inInt = i >= A.start && A.end >= 2 && i < A.end - 1;
+      const auto ri = sa.intervalIndexFromAbsolute(i);
+      if (rp.has_value() != inPts || (inPts && *rp != i - A.start) ||
+          ri.has_value() != inInt || (inInt && *ri != i - A.start))
+        c.violation("C13", "large-grid/index-conversion",
+                    d + " index " + std::to_string(i));
+      bool threw = false;
+      size_t abs = 0;
+      T val{};
+      try {
+        abs = sa.absoluteFromRelative(i);
+        val = sa.at(i);
+      } catch (const BSplineException &) {
+        threw = true;
+      }
+      if (i < size ? (threw || abs != A.start + i || !sameBits(val, grid[A.start + i]))
+                   : !threw) {
+        c.violation("C13", "large-grid/checked-access", d + " index " + std::to_string(i));
+        c.violation("C09", "large-grid/checked-access-bounds", d + " index " + std::to_string(i));
+      }
+      c.count("index-probes");
+    }
+    c.count("large-grid:triples");
+  }
+  c.count("large-grid:" + std::to_string(n));
+  Hasher h;
+  h.u(n);
+  h.u(c.caseId);
+  c.nontrivial(h.h);
+}
+
 template <typename T>
 void runCase(Ctx &c) {
   const size_t N = (size_t)c.param("maxn", 7);
+  if (c.caseId >= (uint64_t)c.param("exhaustive", 1 << 30)) {
+    largeCase<T>(c, c.caseId % 2 ? 300 : 70000);
+    return;
+  }
   // case k -> (n, A)
   uint64_t k = c.caseId;
   size_t n = 2;
